@@ -663,3 +663,31 @@ func renderTemplate(ps []tpart) string {
 	}
 	return sb.String()
 }
+
+// mustPassLifted is MustPass with a fallback for code that was moved into a helper: if the guard is not found on
+// every path inside fn, it may have stayed in the callers — then every static call of fn must itself be guarded.
+func mustPassLifted(p *core.Program, fn *ssa.Function, sink *ssa.BasicBlock, atom core.Atom) (bool, int, []int) {
+	ok, n, path := core.MustPass(fn, sink, atom)
+	if ok && n > 0 {
+		return ok, n, path
+	}
+	sites := 0
+	total := 0
+	for _, caller := range p.Funcs {
+		if !p.IsProdFunc(caller) || caller == fn {
+			continue
+		}
+		for _, ci := range core.Calls(caller, func(_ string, c *ssa.CallCommon) bool { return core.StaticCallee(c) == fn }) {
+			sites++
+			ok2, n2, _ := core.MustPass(caller, ci.Block(), atom)
+			if !(ok2 && n2 > 0) {
+				return ok, n, path
+			}
+			total += n2
+		}
+	}
+	if sites == 0 {
+		return ok, n, path
+	}
+	return true, total, nil
+}
